@@ -1,9 +1,13 @@
 (* MetricsMonitor.v -- executable monitors for C07 on metric tables.  They judge an observed
    table (what the Go harness dumped) against the INPUT of the run (the build: which
    contributions were delivered, how they were grouped) using only the specification-side
-   definitions of Metrics.v (contribs, fieldwise, datas_at); they never evaluate the table model.
-   The numbers 5 (attempts) and 2000 (capacity) are the documented ones, not Gen constants. *)
-From Coq Require Import ZArith NArith List Bool.
+   definitions of Metrics.v (contribs, fieldwise); they never evaluate the table model.
+   The numbers 5 (attempts) and 2000 (capacity, passed in by the case file) are the documented
+   ones, not Gen constants.
+
+   For speed the contributions and the observed entries are both sorted by an injective numeric
+   code of the key and compared by one merge pass (tables with 2000+ entries are checked). *)
+From Coq Require Import ZArith NArith List Bool Lia Orders Mergesort.
 From Verif Require Import Metrics.
 Import ListNotations.
 Open Scope Z_scope.
@@ -13,6 +17,14 @@ Definition oe_key (e : obs_entry) : key := fst (fst e).
 Definition oe_forced (e : obs_entry) : bool := snd (fst e).
 Definition oe_data (e : obs_entry) : mdata := snd e.
 Record tobs := TO { o_max : Z; o_count : Z; o_dropped : Z; o_failed : Z; o_entries : list obs_entry }.
+
+(* compact notation for names in generated case files: bytes of a number, most significant first *)
+Fixpoint bytes_of_pos (fuel : nat) (x : N) (acc : name) : name :=
+  match fuel with
+  | O => acc
+  | S f => if N.eqb x 0 then acc else bytes_of_pos f (N.div x 256) (N.modulo x 256 :: acc)
+  end.
+Definition nm (x : N) : name := bytes_of_pos (S (N.to_nat (N.div (N.log2 x) 8)) + 1) x [].
 
 Definition mdata_eqb (a b : mdata) : bool :=
   (cnt a =? cnt b) && (tot a =? tot b) && (exc a =? exc b) && (mn a =? mn b) && (mx a =? mx b) && (ssq a =? ssq b).
@@ -25,59 +37,116 @@ Definition omd_eqb (a b : option mdata) : bool :=
 
 Definition ATTEMPTS : Z := 5.
 
-Fixpoint keys_distinct (l : list obs_entry) : bool :=
-  match l with
-  | [] => true
-  | e :: r => negb (existsb (fun e' => key_eqb (oe_key e) (oe_key e')) r) && keys_distinct r
+(* ---- rows sorted by key code ---- *)
+Definition code_name (n : name) : N := fold_left (fun acc b => (acc * 256 + b)%N) n 1%N.
+Definition row := (N * N * (bool * mdata))%type.
+Definition row_of_contrib (c : contrib) : row := (code_name (fst (ckey c)), code_name (snd (ckey c)), (cforced c, cdata c)).
+Definition row_of_obs (e : obs_entry) : row := (code_name (fst (oe_key e)), code_name (snd (oe_key e)), (oe_forced e, oe_data e)).
+Definition row_cmp (a b : row) : comparison :=
+  match N.compare (fst (fst a)) (fst (fst b)) with
+  | Eq => N.compare (snd (fst a)) (snd (fst b))
+  | c => c
   end.
+
+Module RowOrder <: TotalLeBool.
+  Definition t := row.
+  Definition leb (a b : t) : bool := match row_cmp a b with Gt => false | _ => true end.
+  Theorem leb_total : forall a b, leb a b = true \/ leb b a = true.
+  Proof.
+    intros a b. unfold leb, row_cmp.
+    destruct (N.compare_spec (fst (fst a)) (fst (fst b))) as [E|L|G];
+      destruct (N.compare_spec (fst (fst b)) (fst (fst a))) as [E'|L'|G']; try lia; auto.
+    destruct (N.compare_spec (snd (fst a)) (snd (fst b))); destruct (N.compare_spec (snd (fst b)) (snd (fst a))); try lia; auto.
+  Qed.
+End RowOrder.
+Module RowSort := Sort RowOrder.
+
+Definition group_t := (N * N * list (bool * mdata))%type.
+Fixpoint group (l : list row) : list group_t :=
+  match l with
+  | [] => []
+  | (a, b, p) :: r =>
+      match group r with
+      | (a', b', ps) :: gs => if N.eqb a a' then if N.eqb b b' then (a, b, p :: ps) :: gs
+                                                 else (a, b, [p]) :: (a', b', ps) :: gs
+                              else (a, b, [p]) :: (a', b', ps) :: gs
+      | [] => [(a, b, [p])]
+      end
+  end.
+
+(* one pass over the groups of contributions and the observed rows, both ascending by key code:
+   [f g (Some o)] judges an observed entry against the contributions to its key, [f g None] a key
+   that received contributions but is absent; an observed entry without contributions fails *)
+Fixpoint join (fuel : nat) (gs : list group_t) (os : list row) (f : list (bool * mdata) -> option (bool * mdata) -> bool) : bool :=
+  match fuel with
+  | O => false
+  | S fu =>
+      match gs, os with
+      | [], [] => true
+      | [], _ :: _ => false
+      | (_, _, ps) :: gs', [] => if f ps None then join fu gs' [] f else false
+      | (a, b, ps) :: gs', (a', b', o) :: os' =>
+          match row_cmp (a, b, o) (a', b', o) with
+          | Lt => if f ps None then join fu gs' os f else false
+          | Eq => if f ps (Some o) then join fu gs' os' f else false
+          | Gt => false
+          end
+      end
+  end.
+Definition judge (rows : list row) (o : tobs) (f : list (bool * mdata) -> option (bool * mdata) -> bool) : bool :=
+  let gs := group (RowSort.sort rows) in
+  let os := RowSort.sort (map row_of_obs (o_entries o)) in
+  join (S (length gs + length os)) gs os f.
 
 (* class "no refusal by construction": the observed key -> data map is exactly the field-wise
    combination of all contributions (sums / min / max), nothing lost, nothing invented *)
+Definition exact_f (ps : list (bool * mdata)) (o : option (bool * mdata)) : bool :=
+  match o with
+  | Some (_, d) => omd_eqb (fieldwise (map snd ps)) (Some d)
+  | None => false
+  end.
 Definition mon_exact (b : build) (o : tobs) : bool :=
-  let cs := contribs ATTEMPTS b in
-  keys_distinct (o_entries o)
-  && forallb (fun e => omd_eqb (fieldwise (datas_at (oe_key e) cs)) (Some (oe_data e))) (o_entries o)
-  && forallb (fun c => existsb (fun e => key_eqb (oe_key e) (ckey c)) (o_entries o)) cs
+  judge (map row_of_contrib (contribs ATTEMPTS b)) o exact_f
   && (o_count o =? Z.of_nat (length (o_entries o)))
   && (o_dropped o =? 0).
 
-(* class "at capacity": every contribution carries a distinct power of two as its total, so the
-   total of an observed entry names the contributions that went into it.  Each observed entry must
-   be the field-wise combination of exactly those, all of them contributions to that key; forced
-   contributions are all there; at most max unforced entries. *)
-Definition bit_in (d : mdata) (c : contrib) : bool := Z.testbit (tot d) (Z.log2 (tot (cdata c))).
+(* class "at capacity": every contribution carries a distinct power of two as its total (or 0 =
+   untracked, taken to be in), so the total of an observed entry names the contributions that
+   went into it.  Each observed entry must be the field-wise combination of exactly those, all
+   of them contributions to that key; the contributions to a key that only ever receives forced
+   contributions are all there (the table keeps the forced flag of the first contribution to a
+   key); at most max unforced entries. *)
+Definition bit_in (d : mdata) (c : bool * mdata) : bool :=
+  if tot (snd c) =? 0 then true else Z.testbit (tot d) (Z.log2 (tot (snd c))).
+Definition capacity_f (ps : list (bool * mdata)) (o : option (bool * mdata)) : bool :=
+  match o with
+  | Some (_, d) =>
+      omd_eqb (fieldwise (map snd (filter (bit_in d) ps))) (Some d)
+      && (negb (forallb fst ps) || forallb (bit_in d) ps)
+  | None => negb (forallb fst ps)
+  end.
 Definition mon_capacity (b : build) (o : tobs) : bool :=
-  let cs := contribs ATTEMPTS b in
-  keys_distinct (o_entries o)
-  && forallb (fun e =>
-        omd_eqb (fieldwise (map cdata (filter (fun c => key_eqb (ckey c) (oe_key e) && bit_in (oe_data e) c) cs)))
-                (Some (oe_data e))) (o_entries o)
-  && forallb (fun c => negb (cforced c) ||
-                       existsb (fun e => key_eqb (oe_key e) (ckey c) && bit_in (oe_data e) c) (o_entries o)) cs
+  judge (map row_of_contrib (contribs ATTEMPTS b)) o capacity_f
   && (Z.of_nat (length (filter (fun e => negb (oe_forced e)) (o_entries o))) <=? Z.max 0 (o_max o))
   && (o_count o =? Z.of_nat (length (o_entries o))).
 
-(* rename: the table observed after ApplyRules against the table observed before it *)
+(* rename: the table observed after ApplyRules against the table observed before it: every
+   entry afterwards is the combination of the entries whose renamed key it is, no entry is
+   lost, the attempt counter and the capacity are carried over, the call counts add up *)
 Definition mon_rename (rn : option (name -> name)) (pre post : tobs) : bool :=
   match rn with
   | None =>
       (o_count post =? o_count pre) && (o_failed post =? o_failed pre) && (o_max post =? o_max pre)
-      && (length (o_entries post) =? length (o_entries pre))%nat
-      && forallb (fun e => existsb (fun p => key_eqb (oe_key p) (oe_key e) && mdata_eqb (oe_data p) (oe_data e))
-                                   (o_entries pre)) (o_entries post)
+      && judge (map row_of_obs (o_entries pre)) post exact_f
   | Some f =>
-      let rk (p : obs_entry) : key := (f (fst (oe_key p)), snd (oe_key p)) in
-      keys_distinct (o_entries post)
+      judge (map (fun p : obs_entry => (code_name (f (fst (oe_key p))), code_name (snd (oe_key p)), (oe_forced p, oe_data p)))
+                 (o_entries pre)) post exact_f
       && (o_failed post =? o_failed pre) && (o_max post =? o_max pre)
       && (o_count post =? Z.of_nat (length (o_entries post)))
-      && forallb (fun e => omd_eqb (fieldwise (map oe_data (filter (fun p => key_eqb (rk p) (oe_key e)) (o_entries pre))))
-                                   (Some (oe_data e))) (o_entries post)
-      && forallb (fun p => existsb (fun e => key_eqb (oe_key e) (rk p)) (o_entries post)) (o_entries pre)
       && (zsum (map (fun e => cnt (oe_data e)) (o_entries post)) =? zsum (map (fun e => cnt (oe_data e)) (o_entries pre)))
   end.
 
-(* a scoped transaction metric is found under both keys (stated on one transaction added to an
-   empty roomy table: observed entries = its contributions) *)
+(* a scoped transaction metric is found under both keys *)
 Definition mon_scoped (txn : name) (ms : list tmetric) (o : tobs) : bool :=
   forallb (fun m =>
     existsb (fun e => key_eqb (oe_key e) (tm_name m, [])) (o_entries o) &&
@@ -87,10 +156,12 @@ Definition mon_scoped (txn : name) (ms : list tmetric) (o : tobs) : bool :=
 Definition corr_full (cmp_forced : bool) (t : table) (o : tobs) : bool :=
   (tmax t =? o_max o) && (tcount t =? o_count o) && (tdropped t =? o_dropped o) && (tfailed t =? o_failed o)
   && (length (entries t) =? length (o_entries o))%nat
-  && forallb (fun e => match lookup (oe_key e) (entries t) with
-                       | Some me => mdata_eqb (data me) (oe_data e) && (negb cmp_forced || Bool.eqb (forced me) (oe_forced e))
-                       | None => false
-                       end) (o_entries o).
+  && judge (map (fun ke : key * mentry => (code_name (fst (fst ke)), code_name (snd (fst ke)), (forced (snd ke), data (snd ke))))
+                (entries t)) o
+           (fun ps o => match ps, o with
+                        | [(f, d)], Some (f', d') => mdata_eqb d d' && (negb cmp_forced || Bool.eqb f f')
+                        | _, _ => false
+                        end).
 (* when refusals depend on the map iteration order only order-independent quantities are compared *)
 Definition corr_coarse (t : table) (o : tobs) : bool :=
   (tmax t =? o_max o) && (tcount t + tdropped t =? o_count o + o_dropped o) && (tfailed t =? o_failed o).
